@@ -635,6 +635,26 @@ class Interp(object):
     def reduce_slice(self, op, e, env, lineno, default=None):
         """min(S[lo:hi]) -> Red(op, i in [lo, hi-1], S(i)); obligations: 0 <= lo, 0 <= hi (a negative bound counts from the end of the list),
         slice not empty -- or, with default=, the default value on the cases in which the slice is empty"""
+        if isinstance(e, (ast.GeneratorExp, ast.ListComp)) and len(e.generators) == 1 and not e.generators[0].ifs and isinstance(e.generators[0].target, ast.Name):
+            # min(S[i] for i in range(a, b))  ->  Red(op, i in [a, b-1], S(i))
+            g = e.generators[0]
+            rng = self.range_of(g.iter, env)
+            if rng is not None:
+                lo, hi, _ = rng
+                fx = env.get('#facts', ())
+                if default is None:
+                    self.require(hi - lo, '`%s(%s)` is never applied to an empty sequence' % (op, ast.unparse(e)[:50]), lineno, fx)
+                else:
+                    allf = self.facts + list(fx)
+                    if not entails(allf, hi - lo):
+                        if entails(allf, lo - hi - Aff.const(1)):
+                            return default
+                        raise NeedSplit(hi - lo)
+                v = self.newvar('i')
+                env2 = dict(env)
+                env2[g.target.id] = Aff.sym(v)
+                env2['#facts'] = list(fx) + [Aff.sym(v) - lo, hi - Aff.sym(v)]
+                return ('red', op, v, lo, hi, self.term(e.elt, env2))
         if not (isinstance(e, ast.Subscript) and isinstance(e.slice, ast.Slice) and e.slice.step is None):
             raise Unknown('%s() of %s' % (op, ast.unparse(e)[:40]))
         s = self.seq(e.value, env)
@@ -1157,6 +1177,17 @@ def _run_path(it, func_node, body, conds):
             env[st.target.id] = it.concat(env[st.target.id], rhs)
             continue
         if isinstance(st, ast.For):
+            # for j in range(..): B.append(E)   with B a fresh list and nothing else in the body   ==   B = [E for j in range(..)]
+            if len(st.body) == 1 and not st.orelse and isinstance(st.target, ast.Name) and it.range_of(st.iter, env) is not None \
+                    and isinstance(st.body[0], ast.Expr) and isinstance(st.body[0].value, ast.Call) and isinstance(st.body[0].value.func, ast.Attribute) \
+                    and st.body[0].value.func.attr == 'append' and isinstance(st.body[0].value.func.value, ast.Name) \
+                    and env.get(st.body[0].value.func.value.id) == ('build',) and len(st.body[0].value.args) == 1 \
+                    and it.range_of(st.iter, env)[2] > 0 and not (it.range_of(st.iter, env)[0] == Aff.const(0)):
+                comp = ast.ListComp(elt=st.body[0].value.args[0], generators=[ast.comprehension(target=st.target, iter=st.iter, ifs=[], is_async=0)])
+                ast.copy_location(comp, st)
+                ast.fix_missing_locations(comp)
+                env[st.body[0].value.func.value.id] = _comprehension(it, comp, env)
+                continue
             r = _outer_loop(it, st, env)
             if r is not None:
                 result_name, out = r
@@ -1409,6 +1440,18 @@ def summarize_online(ix, cls, facts=()):
         raise Unknown('constructor does not prefill the buffers through reset()')
     # reset: prefill
     for st in reset.node.body:
+        if isinstance(st, ast.Expr) and isinstance(st.value, ast.Call) and isinstance(st.value.func, ast.Attribute) and st.value.func.attr == 'extend' \
+                and len(st.value.args) == 1 and isinstance(st.value.args[0], (ast.BinOp, ast.ListComp)):
+            # buffer.extend([c] * M)
+            pd = it.const_list(st.value.args[0], env)
+            tgt = _bufname(st.value.func.value)
+            dv = env.get(tgt)
+            if pd is None or not (isinstance(dv, tuple) and dv[0] == 'deque'):
+                raise Unknown('reset statement %s' % ast.unparse(st)[:40])
+            if not (pd[2] == dv[1]):
+                raise Unknown('ring buffer %s of length %r is refilled with %r values' % (tgt, dv[1], pd[2]))
+            env[tgt] = ('deque', dv[1], ('c', pd[1][1]))
+            continue
         if isinstance(st, ast.For):
             rng = it.range_of(st.iter, env)
             if rng is None:
